@@ -93,6 +93,10 @@ def _evaluator_model(ctx: Ctx, cls, f: FunctionInfo, batch: tuple, cached0: tupl
             state["maps"].append(nm)
             if isinstance(fn_, LocalFn):
                 out = [it.call_local(fn_, [x], {}, 1, env) for x in args[1]]
+            elif fn_ is not UNKNOWN and fn_ is not None:
+                out = [it.apply(fn_, [x], env, 1) for x in args[1]]      # functools.partial(self.eval_single, problem), a bound method ...
+                if any(o_ is UNKNOWN for o_ in out):
+                    return UNKNOWN
             else:
                 return UNKNOWN
             return out if nm in ORDERED_MAPS else list(reversed(out))
@@ -433,8 +437,12 @@ def rule_r5(ctx: Ctx, alias_rid: Optional[str] = None) -> None:
     for cls in prog.subclasses(PROBLEM):
         ev = prog.lookup_method(cls, "evaluate")
         init = prog.lookup_method(cls, "__init__")
-        if ev is None or init is None or ev.cls is None or ev.cls.fullname == PROBLEM:
-            continue
+        from ..frontend import is_stub as _stub
+        if ev is None or init is None or ev.cls is None or _stub(ev.node):
+            continue          # (an evaluate inherited from the base class as a template method is interpreted with this class's hooks)
+        if any((h_ := prog.lookup_method(cls, x_.func.attr)) is not None and _stub(h_.node) for x_ in walk_local(ev.node)
+               if isinstance(x_, ast.Call) and is_self_attr(x_.func)):
+            continue          # this class leaves a hook of evaluate abstract
         if not any(p_ in ("fitness_function", "ff") for p_ in init.params):
             continue
         multi = prog.is_subclass(cls, PROBLEM.rsplit(".", 1)[0] + ".MultiObjectiveProblem") or "minimize: list" in norm(init.node)[:2000]
@@ -457,6 +465,13 @@ def rule_r5(ctx: Ctx, alias_rid: Optional[str] = None) -> None:
                 results = _problem_model(ctx, cls, init, ev, mn, k, given)
             except Budget:
                 undecided.append("too many interpretations")
+                continue
+            live_ = [r_ for r_ in results if not any(e.kind == "raise" for e in r_[0])]
+            if len(live_) > 1:
+                # with concrete flags and symbolic callables Problem.evaluate is deterministic: several interpretations mean the model met a
+                # condition it could not evaluate - what the forks compute is not evidence of what the code does
+                undecided.append(f"the model forks while interpreting evaluate (minimize={mn}): a condition depends on something it does not determine")
+                ntr += len(live_)
                 continue
             for trace, rv, notes in results:
                 main = trace[getattr(trace, "start", 0):]
